@@ -272,6 +272,40 @@ func runC05(c *fw.Ctx) {
 					}
 				})
 			}
+			// filters that are invalid only on SOME rows x row sets of several disjoint ranges / keys: the error of a
+			// row in an earlier range must not be forgotten when a later range is scanned
+			item++
+			if c.Mine(item) {
+				bad := []*bt.Filter{re("val_re", "("), fn("row_limit", -1), {Kind: "pass"}, {Kind: "ts_range", T0: 1500}}
+				var failSome []*bt.Filter
+				for _, b := range bad {
+					for _, k := range []string{"r1", "r2", "r3", "r1|r2"} {
+						failSome = append(failSome,
+							&bt.Filter{Kind: "chain", Subs: []*bt.Filter{re("key_re", k), b}},
+							&bt.Filter{Kind: "cond", Pred: re("key_re", k), True: b, False: &bt.Filter{Kind: "pass", B: true}},
+							&bt.Filter{Kind: "cond", Pred: re("key_re", k), True: &bt.Filter{Kind: "strip"}, False: b},
+							&bt.Filter{Kind: "interleave", Subs: []*bt.Filter{{Kind: "pass", B: true}, {Kind: "chain", Subs: []*bt.Filter{re("key_re", k), b}}}})
+					}
+				}
+				one := func(k string) bt.Range { return bt.Range{SK: 1, S: []byte(k), EK: 1, E: []byte(k)} }
+				rowsets := []bt.Op{
+					{Kind: "ReadRows", Table: tblT, HasRowSet: true, Ranges: []bt.Range{one("r1"), one("r3")}},
+					{Kind: "ReadRows", Table: tblT, HasRowSet: true, Ranges: []bt.Range{one("r1"), one("r2"), one("r3")}},
+					{Kind: "ReadRows", Table: tblT, HasRowSet: true, Ranges: []bt.Range{{EK: 2, E: []byte("r2")}, {SK: 2, S: []byte("r2")}}},
+					{Kind: "ReadRows", Table: tblT, HasRowSet: true, Keys: [][]byte{[]byte("r3"), []byte("r1")}, Ranges: []bt.Range{one("r2")}},
+					{Kind: "ReadRows", Table: tblT, HasRowSet: true, Ranges: []bt.Range{one("r1"), one("r3")}, Limit: 1},
+					{Kind: "ReadRows", Table: tblT, HasRowSet: true, Ranges: []bt.Range{one("r2"), {SK: 1, S: []byte("r3")}}, Limit: 2},
+				}
+				readBatch(c, "C05", eng, setup, c05Tag, func(emit func(bt.Op)) {
+					for _, f := range failSome {
+						for _, rs := range rowsets {
+							o := rs
+							o.Filter = f
+							emit(o)
+						}
+					}
+				})
+			}
 			// row sample: each row entirely or not at all, under every coin sequence
 			item++
 			if c.Mine(item) {
